@@ -103,7 +103,7 @@ impl Report {
     }
 }
 
-pub fn write_replay(dir: &str, engine: &str, f: &Found, form: &str) -> String {
+pub fn write_replay(dir: &str, engine: &str, f: &Found, tier: &str) -> String {
     let h = crate::pool::hash128(f.sig.as_bytes());
     let path = format!("{dir}/{}-{:08x}.json", f.prop, (h as u32));
     let v = json!({
@@ -111,7 +111,7 @@ pub fn write_replay(dir: &str, engine: &str, f: &Found, form: &str) -> String {
         "property": f.prop,
         "signature": f.sig,
         "profile": f.profile,
-        "form": form,
+        "tier": tier,
         "history": f.history,
         "extra": f.extra,
         "detail": f.detail,
